@@ -153,6 +153,17 @@ CLAIMED.update({
     ),
 })
 
+CLAIMED.update({
+    "C09": dict(
+        technique="parent-shape dataflow over the kernels (positions/fields only enter through differences), paired-selection and stage-order checks over vario_estimate with reaching definitions, parity/symmetry abstract interpretation",
+        text="Every read of a position in the variogram kernels sits inside a difference of one coordinate at two points (cos(lat) for great-circle distances) and every read of a field value inside a difference or NaN test, "
+        "so translations of positions / additive constants cannot change any output; every sub-selection is applied to positions and values alike with the point count refreshed; masked / no-data values become NaN; the "
+        "field is copied first; stages run in the documented order; down-sampling is seeded and without replacement; directions reaching the kernel and the separated-directions test are the normalised ones; 'ij' grids; "
+        "estimator even and distance symmetric. Rotation covariance / quadratic scaling as values are not decided.",
+        ref="DESIGN.md section 4 C09",
+    ),
+})
+
 NOT_APPLICABLE = {
     "C01": "distributional property over seeds (ensemble mean/covariance at Monte-Carlo rate); no code-shape clause beyond those decided under C04/C11/C12 - needs sampling or quadrature, a different technique family",
 }
@@ -205,7 +216,7 @@ def main():
     print("MANIFEST.json: %d checks, %d not_applicable" % (len(checks), len(na)))
 
 
-SOURCE_COMMITS = ["c203823", "0fd70cf", "8261140", "84533cc", "edeae19", "d657645", "566cb9d", "703cc68", "c388d81", "c08711b"]
+SOURCE_COMMITS = ["c203823", "0fd70cf", "8261140", "84533cc", "edeae19", "d657645", "566cb9d", "703cc68", "c388d81", "759d47b", "c08711b"]
 
 if __name__ == "__main__":
     main()
